@@ -443,7 +443,7 @@ func TestC18(t *testing.T) {
 			}
 		}
 	}
-	rapidCases(h, "server", env.PerShard(env.Pick(1600, 100000)), genCoCase, func(c coCase) *fail {
+	rapidCases(h, "server", env.PerShard(env.Pick(8000, 200000)), genCoCase, func(c coCase) *fail {
 		st := &coStats{}
 		f := runCoCase(c, st)
 		h.Case(evid.HashJSON(c), st.shorterAfterLonger > 0, fmt.Sprintf("server:conns=%d", c.Conns))
@@ -452,7 +452,7 @@ func TestC18(t *testing.T) {
 		}
 		return f
 	})
-	rapidCases(h, "client", env.PerShard(env.Pick(1600, 100000)), genCoCase, func(c coCase) *fail {
+	rapidCases(h, "client", env.PerShard(env.Pick(8000, 200000)), genCoCase, func(c coCase) *fail {
 		st := &coStats{}
 		f := runCoClientCase(c, st)
 		h.Case(evid.HashJSON(c)^1, st.shorterAfterLonger > 0, "client")
